@@ -140,6 +140,8 @@ struct UploadRec {
     complete_calls: usize,
     completed: bool,
     abort_calls: usize,
+    /// `abort` invalidated the upload (a later `complete` fails)
+    invalidated: bool,
 }
 
 #[derive(Default)]
@@ -151,6 +153,8 @@ struct MpState {
     faults_fired: usize,
     delay_seed: u64,
     create_delay: usize,
+    /// real stores differ: on some an aborted upload can still be completed
+    abort_invalidates: bool,
 }
 
 struct MpStore {
@@ -171,7 +175,7 @@ impl std::fmt::Display for MpStore {
 }
 
 impl MpStore {
-    fn new(delay_seed: u64, create_delay: usize, fault: Option<(usize, FaultKind)>) -> Arc<Self> {
+    fn new(delay_seed: u64, create_delay: usize, fault: Option<(usize, FaultKind)>, abort_invalidates: bool) -> Arc<Self> {
         Arc::new_cyclic(|me| Self {
             me: me.clone(),
             visible: Arc::new(InMemory::new()),
@@ -179,6 +183,7 @@ impl MpStore {
                 fault,
                 delay_seed,
                 create_delay,
+                abort_invalidates,
                 ..Default::default()
             }),
         })
@@ -246,6 +251,12 @@ impl MultipartUpload for MpUpload {
             let mut g = self.store.st.lock().unwrap();
             let u = &mut g.uploads[self.uid];
             u.complete_calls += 1;
+            if u.invalidated {
+                return Err(object_store::Error::Generic {
+                    store: "MpStore",
+                    source: "NoSuchUpload: the upload was aborted".to_string().into(),
+                });
+            }
             if u.parts.len() != u.put_part_calls {
                 // what object_store's S3 / GCS / Azure clients answer (`Parts::finish`)
                 return Err(object_store::Error::Generic {
@@ -273,9 +284,13 @@ impl MultipartUpload for MpUpload {
 
     async fn abort(&mut self) -> object_store::Result<()> {
         let mut g = self.store.st.lock().unwrap();
+        let invalidates = g.abort_invalidates;
         let u = &mut g.uploads[self.uid];
         u.abort_calls += 1;
-        u.parts.clear();
+        if invalidates {
+            u.invalidated = true;
+            u.parts.clear();
+        }
         Ok(())
     }
 }
@@ -369,6 +384,8 @@ struct Scenario {
     create_delay: usize,
     content_seed: u64,
     flush_every: usize,
+    /// `abort` of the store invalidates the upload (else a later `complete` would still succeed)
+    abort_invalidates: bool,
 }
 
 impl Scenario {
@@ -413,7 +430,8 @@ impl Scenario {
         json!({"api": format!("{:?}", self.api), "chunks": self.chunks, "total": self.total(),
             "use_constant_size_upload_parts": self.constant_parts, "pre_existing_object": self.pre_existing,
             "part_delay_seed": self.delay_seed, "create_delay_yields": self.create_delay,
-            "content_seed": self.content_seed, "flush_every": self.flush_every})
+            "content_seed": self.content_seed, "flush_every": self.flush_every,
+            "store_abort_invalidates_upload": self.abort_invalidates})
     }
 }
 
@@ -454,12 +472,29 @@ fn gen_scenario(rng: &mut Rng, idx: u64) -> Scenario {
         create_delay: if rng.chance(1, 3) { rng.urange(1, 3) } else { 0 },
         content_seed: rng.next_u64(),
         flush_every: if rng.chance(1, 3) { rng.urange(1, 3) } else { 0 },
+        abort_invalidates: idx % 2 == 0,
     }
 }
+
+/// what the caller does with the writer after an `abort()` or after a failed write / flush / shutdown
+#[derive(Clone, Copy, Debug, PartialEq, Eq)]
+enum Cont {
+    Drop,
+    Shutdown,
+    WriteThenShutdown,
+    AbortThenShutdown,
+    Flush,
+}
+
+const CONTS: [Cont; 5] = [Cont::Drop, Cont::Shutdown, Cont::WriteThenShutdown, Cont::AbortThenShutdown, Cont::Flush];
 
 #[derive(Clone, Copy, Debug, PartialEq, Eq)]
 enum Inject {
     None,
+    /// `abort()` after this many write calls, then the continuation
+    AbortThen(usize, Cont),
+    /// fail storage call `call`; if a write / flush / shutdown returns an error, the continuation follows
+    FaultThen { call: usize, kind: FaultKind, cont: Cont },
     Fault { call: usize, kind: FaultKind },
     /// `abort()` after this many write calls
     AbortAfter(usize),
@@ -479,6 +514,12 @@ impl Inject {
                 format!("fault:{}#{}:{}", k, nth, kind.name())
             }
             Inject::AbortAfter(n) => format!("abort@{n}"),
+            Inject::AbortThen(n, c) => format!("abort-then-{c:?}@{n}"),
+            Inject::FaultThen { call, kind, cont } => {
+                let k = calls.get(*call).copied().unwrap_or("?");
+                let nth = calls[..(*call).min(calls.len())].iter().filter(|c| **c == k).count();
+                format!("fault-then-{cont:?}:{}#{}:{}", k, nth, kind.name())
+            }
             Inject::DropAfter(n) => format!("drop@{n}"),
             Inject::DropDuringShutdown(n) => format!("drop-in-shutdown@{n}"),
         }
@@ -506,6 +547,8 @@ struct Outcome {
     uploads: Vec<UploadRec>,
     accepted: usize,
     old: Option<Bytes>,
+    /// what the continuation calls returned
+    cont_log: Vec<String>,
 }
 
 const DEST: &str = "data/obj.bin";
@@ -530,12 +573,64 @@ async fn settle() {
     }
 }
 
+/// One call of the continuation, bounded: with the paused clock a call that would never return times
+/// out at once; a panic is recorded. Neither is part of the property (only the destination is).
+async fn cont_step<T>(name: &str, log: &std::cell::RefCell<Vec<String>>, fut: impl std::future::Future<Output = Result<T, String>>) {
+    use futures::FutureExt;
+    let r = tokio::time::timeout(Duration::from_secs(3600), std::panic::AssertUnwindSafe(fut).catch_unwind()).await;
+    let text = match r {
+        Err(_) => format!("{name}: never returns"),
+        Ok(Err(p)) => {
+            let m = p
+                .downcast_ref::<String>()
+                .cloned()
+                .or_else(|| p.downcast_ref::<&str>().map(|s| s.to_string()))
+                .unwrap_or_default();
+            format!("{name}: panicked {}", m.chars().take(100).collect::<String>())
+        }
+        Ok(Ok(Ok(_))) => format!("{name}: ok"),
+        Ok(Ok(Err(e))) => format!("{name}: err {}", e.chars().take(100).collect::<String>()),
+    };
+    log.borrow_mut().push(text);
+}
+
+async fn continuation(w: &mut ObjectWriter, cont: Cont, log: &std::cell::RefCell<Vec<String>>) {
+    match cont {
+        Cont::Drop => {}
+        Cont::Shutdown => {
+            cont_step("shutdown", log, async { w.shutdown().await.map_err(|e| e.to_string()) }).await;
+        }
+        Cont::WriteThenShutdown => {
+            let more = vec![0xA5u8; 1000];
+            cont_step("write", log, async { w.write(&more).await.map_err(|e| e.to_string()) }).await;
+            cont_step("shutdown", log, async { w.shutdown().await.map_err(|e| e.to_string()) }).await;
+        }
+        Cont::AbortThenShutdown => {
+            cont_step("abort", log, async {
+                w.abort().await;
+                Ok::<(), String>(())
+            })
+            .await;
+            cont_step("shutdown", log, async { w.shutdown().await.map_err(|e| e.to_string()) }).await;
+        }
+        Cont::Flush => {
+            cont_step("flush", log, async { w.flush().await.map_err(|e| e.to_string()) }).await;
+        }
+    }
+}
+
 async fn run_one(scn: &Scenario, inj: Inject) -> Outcome {
     let fault = match inj {
         Inject::Fault { call, kind } => Some((call, kind)),
+        Inject::FaultThen { call, kind, .. } => Some((call, kind)),
         _ => None,
     };
-    let store = MpStore::new(scn.delay_seed, scn.create_delay, fault);
+    let fault_cont = match inj {
+        Inject::FaultThen { cont, .. } => Some(cont),
+        _ => None,
+    };
+    let cont_log: std::cell::RefCell<Vec<String>> = std::cell::RefCell::new(vec![]);
+    let store = MpStore::new(scn.delay_seed, scn.create_delay, fault, scn.abort_invalidates);
     let path = Path::from(DEST);
     let old = if scn.pre_existing {
         let b = Bytes::from(stream_bytes(scn.content_seed ^ 0xdead, 0, 777));
@@ -595,6 +690,12 @@ async fn run_one(scn: &Scenario, inj: Inject) -> Outcome {
                     drop(w);
                     return RunResult::Aborted;
                 }
+                Inject::AbortThen(n, cont) if n == i => {
+                    w.abort().await;
+                    continuation(&mut w, cont, &cont_log).await;
+                    drop(w);
+                    return RunResult::Aborted;
+                }
                 Inject::DropAfter(n) if n == i => {
                     drop(w);
                     return RunResult::Dropped;
@@ -605,6 +706,9 @@ async fn run_one(scn: &Scenario, inj: Inject) -> Outcome {
             match scn.api {
                 Api::WriteAll => {
                     if let Err(e) = w.write_all(&data).await {
+                        if let Some(cont) = fault_cont {
+                            continuation(&mut w, cont, &cont_log).await;
+                        }
                         drop(w);
                         return RunResult::Err(format!("write_all[{i}]: {e}"));
                     }
@@ -623,6 +727,9 @@ async fn run_one(scn: &Scenario, inj: Inject) -> Outcome {
                                 accepted += n;
                             }
                             Err(e) => {
+                                if let Some(cont) = fault_cont {
+                                    continuation(&mut w, cont, &cont_log).await;
+                                }
                                 drop(w);
                                 return RunResult::Err(format!("write[{i}]: {e}"));
                             }
@@ -630,6 +737,9 @@ async fn run_one(scn: &Scenario, inj: Inject) -> Outcome {
                     }
                     if scn.flush_every > 0 && (i + 1) % scn.flush_every == 0 {
                         if let Err(e) = w.flush().await {
+                            if let Some(cont) = fault_cont {
+                                continuation(&mut w, cont, &cont_log).await;
+                            }
                             drop(w);
                             return RunResult::Err(format!("flush[{i}]: {e}"));
                         }
@@ -642,6 +752,12 @@ async fn run_one(scn: &Scenario, inj: Inject) -> Outcome {
         match inj {
             Inject::AbortAfter(k) if k >= n => {
                 w.abort().await;
+                drop(w);
+                return RunResult::Aborted;
+            }
+            Inject::AbortThen(k, cont) if k >= n => {
+                w.abort().await;
+                continuation(&mut w, cont, &cont_log).await;
                 drop(w);
                 return RunResult::Aborted;
             }
@@ -676,7 +792,13 @@ async fn run_one(scn: &Scenario, inj: Inject) -> Outcome {
                 let _ = w.shutdown().await;
                 RunResult::Ok { size: r.size }
             }
-            Err(e) => RunResult::Err(format!("shutdown: {e}")),
+            Err(e) => {
+                // a failed close followed by another generic close step
+                if let Some(cont) = fault_cont {
+                    continuation(&mut w, cont, &cont_log).await;
+                }
+                RunResult::Err(format!("shutdown: {e}"))
+            }
         };
         drop(w);
         r
@@ -698,6 +820,7 @@ async fn run_one(scn: &Scenario, inj: Inject) -> Outcome {
         uploads: g.uploads.clone(),
         accepted,
         old,
+        cont_log: cont_log.borrow().clone(),
     };
     drop(g);
     out
@@ -742,10 +865,14 @@ fn judge(scn: &Scenario, inj: Inject, o: &Outcome) -> Vec<(String, String)> {
             }
         }
         RunResult::Err(_) | RunResult::Aborted | RunResult::Dropped => {
-            let how = match &o.result {
-                RunResult::Err(_) => "failed-write",
-                RunResult::Aborted => "abort",
-                _ => "drop",
+            let how = match (&o.result, inj) {
+                (RunResult::Aborted, Inject::AbortThen(_, c)) => format!("abort-then-{}", cont_name(c)),
+                (RunResult::Err(_), Inject::FaultThen { cont, .. }) if !o.cont_log.is_empty() || cont == Cont::Drop => {
+                    format!("failed-write-then-{}", cont_name(cont))
+                }
+                (RunResult::Err(_), _) => "failed-write".to_string(),
+                (RunResult::Aborted, _) => "abort".to_string(),
+                _ => "drop".to_string(),
             };
             let left = match (&o.object, &o.old) {
                 (None, None) => None,
@@ -772,14 +899,23 @@ fn judge(scn: &Scenario, inj: Inject, o: &Outcome) -> Vec<(String, String)> {
         }
         RunResult::Hang => {}
     }
-    let _ = inj;
     v
+}
+
+fn cont_name(c: Cont) -> &'static str {
+    match c {
+        Cont::Drop => "drop",
+        Cont::Shutdown => "shutdown",
+        Cont::WriteThenShutdown => "write-and-shutdown",
+        Cont::AbortThenShutdown => "abort-and-shutdown",
+        Cont::Flush => "flush",
+    }
 }
 
 fn witness(seed: u64, idx: u64, scn: &Scenario, inj: Inject, o: &Outcome) -> Value {
     json!({"seed": seed as i64, "scenario_index": idx, "scenario": scn.describe(), "injection": format!("{inj:?}"),
         "injection_class": inj.class(&o.calls), "storage_calls": o.calls, "result": format!("{:?}", o.result),
-        "accepted_bytes": o.accepted,
+        "accepted_bytes": o.accepted, "continuation_calls": o.cont_log,
         "object_after": o.object.as_ref().map(|b| json!({"len": b.len(), "fnv": fnv(b).to_string()})),
         "uploads": o.uploads.iter().map(|u| json!({"returned": u.returned, "put_part_calls": u.put_part_calls,
             "parts_finished": u.parts.len(), "complete_calls": u.complete_calls, "completed": u.completed,
@@ -835,10 +971,26 @@ fn run_scenario(report: &Report, seed: u64, idx: u64, scn: &Scenario, selftest: 
         let inj_kind = class.split('#').next().unwrap_or("").split('@').next().unwrap_or("").to_string();
         let inj_kind = match inj {
             Inject::Fault { kind, .. } => format!("{}:{}", inj_kind, kind.name()),
+            Inject::AbortThen(_, c) => format!("abort-then-{}", cont_name(c)),
+            Inject::FaultThen { cont, .. } => format!("fault-then-{}:{}", cont_name(cont), class.split(':').nth(1).unwrap_or("").split('#').next().unwrap_or("")),
             _ => inj_kind,
         };
+        for l in &o.cont_log {
+            let mut it = l.splitn(2, ": ");
+            let (call, res) = (it.next().unwrap_or(""), it.next().unwrap_or(""));
+            let res = res.split(' ').next().unwrap_or("");
+            let after = if matches!(inj, Inject::AbortThen(..)) { "abort" } else { "failed_call" };
+            report.count(&format!("continuation.after_{after}.{call}.{res}"), 1);
+        }
+        if let Some(l) = o.cont_log.iter().find(|l| l.contains("panicked") || l.contains("never returns")) {
+            let key = if l.contains("panicked") { "continuation_panic_example" } else { "continuation_never_returns_example" };
+            report.set(key, json!({"scenario": scn.describe(), "injection": class.clone(), "result": format!("{:?}", o.result), "continuation_calls": o.cont_log}));
+        }
+        if !o.cont_log.is_empty() || matches!(inj, Inject::AbortThen(_, Cont::Drop)) {
+            report.count("continuation_runs", 1);
+        }
         report.count(&format!("inject.{inj_kind}.{outcome_name}"), 1);
-        if let Inject::Fault { .. } = inj {
+        if matches!(inj, Inject::Fault { .. } | Inject::FaultThen { .. }) {
             if o.faults_fired == 0 {
                 report.count("fault_not_reached", 1);
             }
@@ -897,6 +1049,37 @@ fn run_scenario(report: &Report, seed: u64, idx: u64, scn: &Scenario, selftest: 
         }
         for polls in [1usize, 2, 3, 5, 9] {
             plan.push(Inject::DropDuringShutdown(polls));
+        }
+        // what a caller may still do with the writer after abort() / after a failed call: the
+        // destination must stay untouched whatever the continuation returns
+        let n = scn.chunks.len();
+        let mut points = vec![0usize, n];
+        if n >= 2 {
+            points.push(n / 2);
+        }
+        points.sort();
+        points.dedup();
+        for at in points {
+            for c in CONTS {
+                plan.push(Inject::AbortThen(at, c));
+            }
+        }
+        // one fault point per kind of storage call (first create, first and last part, complete, put)
+        let mut fault_points: Vec<usize> = vec![];
+        for kind in ["create", "part", "complete", "put"] {
+            if let Some(i) = calls.iter().position(|k| *k == kind) {
+                fault_points.push(i);
+            }
+        }
+        if let Some(i) = calls.iter().rposition(|k| *k == "part") {
+            fault_points.push(i);
+        }
+        fault_points.sort();
+        fault_points.dedup();
+        for call in fault_points {
+            for c in CONTS {
+                plan.push(Inject::FaultThen { call, kind: FaultKind::Permanent, cont: c });
+            }
         }
     }
     let started = std::time::Instant::now();
@@ -1067,6 +1250,7 @@ pub fn run(args: &Args) -> i32 {
                         create_delay: 0,
                         content_seed: 99 + constant as u64,
                         flush_every: 0,
+                        abort_invalidates: true,
                     };
                     let rt = rt_paused();
                     let o = rt.block_on(run_one(&scn, Inject::None));
